@@ -18,6 +18,7 @@ RULE = ('Hypothesis resampling problems described by parameters (the arrays are 
         'reproduces smooth flux, constants stay constant, (c flux, ivar/c^2) scaling; feature centroid lands at L - log10(1+z).  '
         'Non-trivial = interior zero-run, output grid extending beyond the data, >= 20 output pixels with ivar > 0.')
 RULE += '  Also: finer output grids (2-3 output pixels per input pixel), flux scales 1e-17..1e3, negative redshifts.'
+RULE += ' Round 5: offset grids (start outside, end inside the data); flux asserted > 12 pixels from every gap / end whatever the output ivar.'
 ASSUMPTIONS = ['scale factors c keep ivar/c^2 well above float32 eps (combine1fiber treats |smoothed ivar| < 1.2e-7 as a bad region, an absolute threshold inherited from IDL): c in 1e-17 .. 1e3 for ivar ~ 400',
                'preprocess_spectra derives its own output grid only from a shared 1-D loglam (2-D loglam is always accompanied by newloglam, as in template_input)',
                'the harness installs an SPPIXMASK table in the maskbits cache (the official file cannot be downloaded offline)',
